@@ -80,12 +80,40 @@ var specStructs = [][2]string{
 	{"tlb.CommonMsgInfo", "CommonMsgInfo"}, {"tlb.TickTock", "TickTock"}, {"tlb.StateInit", "StateInit"},
 	{"tlb.Message", "Message"}, {"wallet.MessageV3", "WalletV3Body"}, {"wallet.MessageV4", "WalletV4Body"},
 	{"wallet.SignedMsgBody", "SignedMsgBody"},
+	{"tlb.StorageUsed", "StorageUsed"},
+	{"tlb.StorageExtraInfo", "StorageExtraInfo"},
+	{"tlb.StorageInfo", "StorageInfo"},
+	{"tlb.AccountState", "AccountState"},
+	{"tlb.AccountStorage", "AccountStorage"},
+	{"tlb.ExistedAccount", "ExistedAccount"},
+	{"tlb.Account", "Account"},
+	{"tlb.ShardAccount", "ShardAccount"},
+	{"tlb.AccountStatus", "AccountStatus"},
+	{"tlb.AccStatusChange", "AccStatusChange"},
+	{"tlb.ComputeSkipReason", "ComputeSkipReason"},
+	{"tlb.TrStoragePhase", "TrStoragePhase"},
+	{"tlb.TrCreditPhase", "TrCreditPhase"},
+	{"tlb.TrComputePhase", "TrComputePhase"},
+	{"tlb.TrActionPhase", "TrActionPhase"},
+	{"tlb.TrBouncePhase", "TrBouncePhase"},
+	{"tlb.SplitMergeInfo", "SplitMergeInfo"},
+	{"tlb.TransactionDescr", "TransactionDescr"},
+	{"tlb.HashUpdate", "HashUpdate"},
+	{"tlb.Transaction", "Transaction"},
+	{"wallet.W5Actions", "OutList"}, {"wallet.W5ExtendedAction", "W5ExtendedAction"},
+	{"wallet.W5ExtendedActions", "W5ExtendedActions"}, {"wallet.MessageV5", "WalletV5R1Body"},
+	{"wallet.HighloadV2Message", "HighloadV2Body"},
+	{"tlb.BurningConfig", "BurningConfig"}, {"tlb.MsgMetadata", "MsgMetadata"},
 }
 
 func genC04(g *h.G) {
 	tlbInit()
 	gc := tlbx.NewGenCtx(g.Rng, tlbU)
 	gc.ModelOnly = true
+	for _, tt := range tlbTypes {
+		g.Count("types_" + tt.Class)
+	}
+	g.Counters["structures_with_transcribed_schema"] = len(specStructs)
 	// (a) primitives: EXHAUSTIVE over the widths, boundary values plus random ones for each width
 	perWidth := g.Scale(3, 300)
 	emitInt := func(goType, st string, vals []*big.Int) {
